@@ -77,6 +77,19 @@ def framesOfWrite (mp : Nat) (id : Nat) (buf : Bytes) : Option (List Frame) :=
 def encodeWrite (mp : Nat) (id : Nat) (buf : Bytes) : Option Bytes :=
   (framesOfWrite mp id buf).map encodeFrames
 
+/-- the trunk bytes of a sequence of writes `(id, buf)` in the order they take the trunk
+    write lock (each `Write` is atomic under `m.writeLock`) -/
+def encodeWrites (mp : Nat) : List (Nat × Bytes) → Option Bytes
+  | [] => some []
+  | w :: ws =>
+    match encodeWrite mp w.1 w.2, encodeWrites mp ws with
+    | some a, some b => some (a ++ b)
+    | _, _ => none
+
+/-- the frames those writes amount to -/
+def specFrames (mp : Nat) (ws : List (Nat × Bytes)) : List Frame :=
+  ws.flatMap fun w => (chunkSpec mp w.2).map (Frame.mk w.1)
+
 /-- the loop of `mux.reader` on a finite stream: complete frames, and the incomplete tail
     at which `io.ReadFull` stops.  (`take`/`length`/`drop` only touch the frame at hand.) -/
 def decode : Bytes → List Frame × Bytes
